@@ -1007,7 +1007,7 @@ impl Check for C02 {
 		CheckInfo {
 			id: "C02",
 			level: "exploration",
-			rule: "each case = seeded history over {add send track, add (nested) sub-track with probe-effect chain and send routes, play probe sound (optionally self-finishing), stop sound, drop a track subtree, drop a send track, set volume of main / track / send / route (fixed or tweened), pause / resume a track, device callback of arbitrary size} at a seeded internal buffer size and sample rate; non-trivial = non-silent output; distinct = hash of the per-callback (live tracks, sounds asked, chunks) sequence",
+			rule: "3% of the cases are scheduled: a gameplay task adds send track(s), a track routed to them (optionally nested) and a DC sound while an audio task runs callbacks under seeded random schedules at the yield points of the resource rings - every output sample is silence or the full documented sum; the others: each case = seeded history over {add send track, add (nested) sub-track with probe-effect chain and send routes, play probe sound (optionally self-finishing), stop sound, drop a track subtree, drop a send track, set volume of main / track / send / route (fixed or tweened), pause / resume a track, device callback of arbitrary size} at a seeded internal buffer size and sample rate; non-trivial = non-silent output; distinct = hash of the per-callback (live tracks, sounds asked, chunks) sequence",
 			assumptions: vec![
 				"probe sounds emit positive samples and probe effects are affine with positive gain and offsets, so every gain acts monotonically and interval bounds are sound".into(),
 				"a gain that may be mid-tween (from the command until duration + two internal buffers later) is an interval between its previous and target amplitude; the exact interpolation inside a chunk is C06's subject".into(),
